@@ -46,6 +46,14 @@ class StructBase(Check):
             lines.append("unlink V0 V1 destroy")
             lines.append("obs")
             yield lines, [real.step(l) for l in lines]
+        # a vertex whose number of links CROSSES a power of two several times (grows past 512, shrinks below it, grows
+        # back): links detached while it was small are re-attached once it is large again
+        n = 512 if tier == "quick" else 1024
+        lines = ["reset", "vertex V", "vertex V", "vertex V"] + ["edge D V0 V%d" % (1 + k % 2) for k in range(n + 1)]
+        lines += ["setv1 L0 V2", "setv1 L1 V2", "rmfromlink V0 L2", "edge U V0 V1", "edge U V0 V1", "edge D V2 V0", "obs",
+                  "setv1 L1 V0", "addtolink V0 L2", "setv1 L0 V0", "obs", "edge D V0 V2", "lunlink L5 V0", "lunlink L6 V0", "lunlink L7 V0",
+                  "ladd L6 V0", "edge D V0 V1", "edge D V0 V1", "addtolink V0 L5", "rmfromlink V0 L1", "setv2 L7 V0", "obs"]
+        yield lines, [real.step(l) for l in lines]
 
     def search(self, tier, rng, real, v):
         # mutate around the divergent script: same prefix, then random continuations
